@@ -23,7 +23,15 @@ and, from lightmotif/src/abc.rs (reader: translate/encode_abc.py) and transfac/p
     C14.sym_index_is_generated / alpha_k_is_generated re-check the hand-written tables of
     TransfacParse.v (sym_index, alpha_k) against them;
   * the two-letter line codes accepted by `parse_tag` (the string patterns of its first match arm);
-    C15.tags_are_generated re-checks TransfacParse.classify against them.
+    C15.tags_are_generated re-checks TransfacParse.classify against them;
+  * (wave 3) the F18 class -- error.rs turns nom's `Err::Incomplete` into `unreachable!()`, and only nom's
+    *streaming* combinators (or code naming `Incomplete` / `Needed` itself) produce it: every path of
+    transfac/parse.rs (outside `#[cfg(test)] mod`) with a segment `streaming` (`use` declarations with their
+    groups expanded, and inline paths), as "<module>::streaming::<item>"; the functions in whose body the bare
+    identifier `space1` occurs; whether `Incomplete` / `Needed` is named at all.  The model handles exactly one
+    streaming combinator, `character::streaming::space1` in parse_alphabet (TransfacCur.parse_record_cur
+    selects the streaming / complete model of space1 from these constants); C15.parse_streaming_is_modelled,
+    C15.parsers_are_complete, C15.parser_total_current and C15.reader_total_current are re-checked against them.
 
 Harmless reformatting (blanks, line breaks, comments) is tolerated.  A source that can no longer
 be parsed gives dict(ok=False, errors=[...]) -- reported by the runner as a broken obligation --
@@ -135,6 +143,114 @@ def parse_tags(src):
     return tags
 
 
+def _blank_literals(src):
+    """string and char literals replaced by blanks of the same kind (the source has no comments any more)"""
+    out = []
+    i, n = 0, len(src)
+    while i < n:
+        c = src[i]
+        if c == '"':
+            j = i + 1
+            while j < n and src[j] != '"':
+                j += 2 if src[j] == "\\" else 1
+            out.append('""')
+            i = j + 1
+        elif c == "'":
+            m = re.match(r"'(\\x[0-9a-fA-F]{2}|\\u\{[0-9a-fA-F]+\}|\\.|[^\\'])'", src[i:])
+            if m:
+                out.append("' '")
+                i += len(m.group(0))
+            else:
+                out.append(c)
+                i += 1
+        else:
+            out.append(c)
+            i += 1
+    return "".join(out)
+
+
+def _drop_test_mods(src):
+    while True:
+        m = re.search(r"#\s*\[\s*cfg\s*\(\s*test\s*\)\s*\]\s*(?:pub\s+)?mod\s+\w+\s*\{", src)
+        if not m:
+            return src
+        _, end = E.block_after(src, m.end() - 1)
+        src = src[:m.start()] + src[end:]
+
+
+def _expand_use(tree):
+    """`a::b::{c, d::e as f, g::*}` -> ['a::b::c', 'a::b::d::e', 'a::b::g::*'] (aliases dropped)"""
+    tree = tree.strip()
+    if not tree:
+        return []
+    # split at top-level commas
+    parts, depth, cur = [], 0, ""
+    for ch in tree:
+        if ch == "{":
+            depth += 1
+        elif ch == "}":
+            depth -= 1
+        if ch == "," and depth == 0:
+            parts.append(cur)
+            cur = ""
+        else:
+            cur += ch
+    parts.append(cur)
+    if len(parts) > 1:
+        out = []
+        for q in parts:
+            out.extend(_expand_use(q))
+        return out
+    t = parts[0].strip()
+    b = t.find("{")
+    if b < 0:
+        t = re.sub(r"\s+as\s+\w+\s*$", "", t)
+        return [re.sub(r"\s+", "", t)]
+    if not t.endswith("}"):
+        raise ParseError("use declaration: cannot read `%s`" % t)
+    prefix = re.sub(r"\s+", "", t[:b])
+    return [prefix + x for x in _expand_use(t[b + 1:-1])]
+
+
+def _streaming_name(path):
+    segs = [x for x in path.split("::") if x]
+    if "streaming" not in segs:
+        return None
+    k = segs.index("streaming")
+    return "::".join(segs[max(0, k - 1):])
+
+
+def parse_streaming(src):
+    """src: parse.rs without comments.  -> (streaming paths, fns using bare `space1`, names Incomplete/Needed?)"""
+    text = _drop_test_mods(_blank_literals(src))
+    found = []
+    def add(pth):
+        nm = _streaming_name(pth)
+        if nm is not None and nm not in found:
+            found.append(nm)
+    rest = text
+    for m in re.finditer(r"\buse\s+([^;]*);", text):
+        for pth in _expand_use(m.group(1)):
+            add(pth)
+    rest = re.sub(r"\buse\s+[^;]*;", " ", text)
+    for m in re.finditer(r"[A-Za-z_]\w*(?:\s*::\s*(?:[A-Za-z_]\w*|\*))+", rest):
+        add(re.sub(r"\s+", "", m.group(0)))
+    if re.search(r"\bstreaming\b", re.sub(r"[A-Za-z_]\w*(?:\s*::\s*(?:[A-Za-z_]\w*|\*))+", " ", rest)):
+        add("streaming")           # the bare word somewhere else (macro, alias): not understood = not modelled
+    users = []
+    for m in re.finditer(r"\bfn\s+([A-Za-z_]\w*)", rest):
+        name = m.group(1)
+        brace = rest.find("{", m.end())
+        semi = rest.find(";", m.end())
+        if brace < 0 or (0 <= semi < brace):
+            continue
+        body, _ = E.block_after(rest, brace)
+        if re.search(r"(?<![\w:])space1\b", body) and name not in users:
+            users.append(name)
+    mentions = bool(re.search(r"\b(Incomplete|Needed)\b", rest))
+    return found, users, mentions
+
+
 def parse_abc(src):
     out = {}
     errors = list(E.check_trait_defaults(src))
@@ -191,12 +307,20 @@ def emit(r):
         "Definition gen_from_ascii_protein : list (byte * nat) := %s.\n"
         "(* transfac/parse.rs parse_tag: the accepted line codes, in source order *)\n"
         "Definition gen_tags : list (list byte) := [%s].\n"
+        "(* transfac/parse.rs outside #[cfg(test)]: paths with a segment `streaming` (\"<module>::streaming::<item>\"),\n"
+        "   the functions naming the bare identifier space1, and whether Incomplete / Needed is named *)\n"
+        "Definition gen_parse_streaming : list (list byte) := [%s].\n"
+        "Definition gen_parse_space1_users : list (list byte) := [%s].\n"
+        "Definition gen_parse_mentions_incomplete : bool := %s.\n"
         % (REL, "true" if r["fixed"] else "false",
            "; ".join(_coq_str(p) for p in r["new_prefixes"]),
            "; ".join(_coq_str(p) for p in r["next_prefixes"]),
            abc["Dna"]["K"], _pairs(abc["Dna"]["from_ascii"]),
            abc["Protein"]["K"], _pairs(abc["Protein"]["from_ascii"]),
-           "; ".join(_coq_str(bytes(t)) for t in r["tags"])))
+           "; ".join(_coq_str(bytes(t)) for t in r["tags"]),
+           "; ".join(_coq_str(t) for t in r["streaming"][0]),
+           "; ".join(_coq_str(t) for t in r["streaming"][1]),
+           "true" if r["streaming"][2] else "false"))
 
 
 def translate():
@@ -205,7 +329,9 @@ def translate():
         src = E.strip_comments(open(path).read())
         r = parse(src)
         r["abc"] = parse_abc(E.strip_comments(open(os.path.join(_repo(), ABC_REL)).read()))
-        r["tags"] = parse_tags(E.strip_comments(open(os.path.join(_repo(), PARSE_REL)).read()))
+        psrc = E.strip_comments(open(os.path.join(_repo(), PARSE_REL)).read())
+        r["tags"] = parse_tags(psrc)
+        r["streaming"] = parse_streaming(psrc)
     except (ParseError, OSError, ValueError, IndexError, KeyError) as e:
         return dict(ok=False, errors=["transfac_reader: cannot parse (%s | %s | %s): %s" % (REL, PARSE_REL, ABC_REL, e)], notes=[])
     text = emit(r)
@@ -219,7 +345,8 @@ def translate():
             f.write(text)
     return dict(ok=True, notes=["transfac_reader: last advance = %s; prefixes new=%r next=%r; K=%d/%d; %d line codes" % (
         "buffer.len()" if r["fixed"] else "+= n", r["new_prefixes"], r["next_prefixes"],
-        r["abc"]["Dna"]["K"], r["abc"]["Protein"]["K"], len(r["tags"]))])
+        r["abc"]["Dna"]["K"], r["abc"]["Protein"]["K"], len(r["tags"]))
+        + "; parse.rs streaming paths=%r, space1 in %r, names Incomplete/Needed=%s" % tuple(r["streaming"])])
 
 
 if __name__ == "__main__":
